@@ -253,7 +253,7 @@ def parseIdxMap (s : String) : Option IdxMap :=
     configuration *in force* (the model's cache: it changes only when a config entry is applied) that
     are known to hold `N` (implementation's own match indexes), leader included, must be a strict
     majority of that configuration; and the implementation's cached voter set must be that configuration. -/
-def monitorPq : PqSt → List PqOp → Nat → List String → Option String
+def monitorPq (quorumPass : Bool) : PqSt → List PqOp → Nat → List String → Option String
   | _, [], _, _ => none
   | _, _ :: _, _, [] => some "missing-record"
   | s, op :: rest, preCommit, rec :: more =>
@@ -264,10 +264,10 @@ def monitorPq : PqSt → List PqOp → Nat → List String → Option String
       | some c, some m, some v =>
         let inForce := voterPeers s'.leader.targets
         let isApply := match op with | .apply => true | _ => false
-        if !isApply && c > preCommit && !s'.leader.singleVoter &&
+        if quorumPass && !isApply && c > preCommit && !s'.leader.singleVoter &&
             holders c inForce m * 2 ≤ inForce.length + 1 then some "commit-quorum-of-unapplied-config"
-        else if v.mergeSort (· ≤ ·) != inForce.mergeSort (· ≤ ·) then some "cached-voters-ahead-of-applied-config"
-        else monitorPq s' rest c more
+        else if !quorumPass && v.mergeSort (· ≤ ·) != inForce.mergeSort (· ≤ ·) then some "cached-voters-ahead-of-applied-config"
+        else monitorPq quorumPass s' rest c more
       | _, _, _ => some "unparsable-output"
 
 /-- C26: in every observed state, no two nodes' own voter sets admit disjoint majorities -/
@@ -278,7 +278,11 @@ def monitorC26 (fs : List (String × String)) (ops : List String) (out : String)
     | some s =>
       let recs := out.splitOn " | "
       if recs.length != ops.length + 1 then "bad record-count"
-      else match monitorPq s (ops.map parsePqOp) ((recs.head?.bind fun r => numField r "c").getD 0) (recs.drop 1) with
+      else
+        let c0 := (recs.head?.bind fun r => numField r "c").getD 0
+        -- first the commit quorum over the whole case (the telling failure), then the cached voter set
+        match (monitorPq true s (ops.map parsePqOp) c0 (recs.drop 1)).orElse
+              (fun _ => monitorPq false s (ops.map parsePqOp) c0 (recs.drop 1)) with
         | some sig => "bad " ++ sig
         | none => "ok"
   else if lookup fs "k" != some "cl" then "skip"
